@@ -907,6 +907,17 @@ class Callable(BaseCallable):
 
         super().__init__(default_value, **metadata)
 
+    def validate(self, object, name, value):
+        """ Validates that the value is a Python callable, or None if
+        ``allow_none`` is true.
+
+        Note: The 'fast validator' version performs this check in C.
+        """
+        if value is None and not self.fast_validate[1]:
+            self.error(object, name, value)
+
+        return super().validate(object, name, value)
+
 
 class BaseType(TraitType):
     """ A trait type whose value must be an instance of a Python type.
